@@ -163,6 +163,9 @@ struct Ctx<'a> {
     rec: Recorder,
     env: &'a Env,
     thorough: bool,
+    /// constructor panics recorded so far per (constructor, panic site): the recorder keeps at most
+    /// 200 failures, a flood of one known class must not push other failures out of the report
+    recorded: std::collections::BTreeMap<String, u32>,
 }
 
 fn list(v: &[usize]) -> String {
@@ -276,7 +279,15 @@ where
     }
     if let Some(m) = ctor_panic {
         cx.rec.count(&format!("rotor-{ctor}:ctor-panic"));
-        cx.rec.oracle(false, &format!("rotor-{ctor}-construct-panics"), || format!("{desc}: constructor panicked: {m}"));
+        let site: String = m.chars().filter(|c| !c.is_ascii_digit()).take(60).collect();
+        let cnt = cx.recorded.entry(format!("{ctor}|{site}")).or_default();
+        *cnt += 1;
+        if *cnt <= 6 {
+            cx.rec.oracle(false, &format!("rotor-{ctor}-construct-panics"), || format!("{desc}: constructor panicked: {m}"));
+        } else {
+            cx.rec.oracle_checks += 1;
+            cx.rec.count(&format!("oracle_fail_not_recorded(same class as 6 recorded):rotor-{ctor}-construct-panics|{site}"));
+        }
         cx.rec.step("idx 0 0", "idx 0");
         cx.rec.end_case(class, false);
         return;
@@ -457,7 +468,7 @@ fn main() {
     quiet_panics();
     let mut rng = Rng::new(args.seed);
     let env = Env::new(&mut rng);
-    let mut cx = Ctx { rec: Recorder::new(), env: &env, thorough: args.thorough };
+    let mut cx = Ctx { rec: Recorder::new(), env: &env, thorough: args.thorough, recorded: Default::default() };
 
     let shapes = ["equal1", "equalbig", "small", "heavy", "whale", "straddle", "random"];
     let ns: Vec<usize> = if args.thorough { vec![1, 2, 3, 4, 5, 7, 16, 63, 64, 65, 100, 200, 201, 202, 500, 1000, 2000] } else { vec![1, 2, 3, 5, 16, 64, 65, 200, 201, 1000] };
